@@ -229,7 +229,8 @@ Definition pkg_kind (p : bytes) : kind :=
 Definition ascii_case_variant (p v : bytes) : Prop :=
   map ascii_lower v = p /\ forallb is_ascii v = true.
 
-(* every registered decoration is complete or boxless (DESIGN 13.7) *)
+(* every registered decoration is one the text renderer accepts (anything but
+   the zero value: complete, boxless, or written field by field; DESIGN 13.7) *)
 Definition usable_registry (reg : registry) : Prop :=
   forall k d, In (k, d) reg -> exists id, d = DVal id true.
 
@@ -406,36 +407,6 @@ Section C19.
         repeat (destruct Hin as [Hin|Hin]; [subst n; discriminate|]). destruct Hin.
   Qed.
 End C19.
-
-(* ---- the listing *)
-Lemma listing_facts reg :
-  Sorted bytes_le (list_styles reg)
-  /\ (forall p, In p four_names -> In p (list_styles reg))
-  /\ (forall n, In n (map fst reg) -> In n (list_styles reg))
-  /\ (forall n, In n (list_styles reg) -> In n four_names \/ In n (map fst reg)).
-Proof.
-  unfold list_styles. split; [apply isort_sorted|]. repeat split.
-  - intros p I. apply isort_In. apply in_or_app. right. exact I.
-  - intros n I. apply isort_In. apply in_or_app. left. apply isort_In. exact I.
-  - intros n I. apply (proj1 (isort_In _ _)) in I. apply in_app_or in I. destruct I as [I|I]; [right | left; exact I].
-    apply (proj1 (isort_In _ _)) in I. exact I.
-Qed.
-
-Lemma listing_nodup reg :
-  NoDup (map fst reg) -> (forall p, In p four_names -> ~ In p (map fst reg)) -> NoDup (list_styles reg).
-Proof.
-  intros Hn Hd. unfold list_styles. apply isort_NoDup. change (NoDup (names reg ++ four_names)).
-  assert (N4 : NoDup four_names).
-  { apply nodupb_NoDup. vm_compute. reflexivity. }
-  revert Hd. generalize four_names N4. intros four N4' Hd.
-  assert (Nn : NoDup (names reg)) by (apply isort_NoDup; exact Hn).
-  assert (Dj : forall x, In x (names reg) -> ~ In x four).
-  { intros x I J. apply (Hd x J). apply (proj1 (isort_In _ _)) in I. exact I. }
-  revert Nn Dj. generalize (names reg). intros l. induction l as [|x l IH]; intros Nn Dj; simpl; [exact N4'|].
-  inversion Nn; subst. constructor.
-  - intros I. apply in_app_or in I. destruct I as [I|I]; [contradiction|]. apply (Dj x); simpl; auto.
-  - apply IH; auto. intros y Iy. apply Dj. right. exact Iy.
-Qed.
 
 (* the dispatch does not depend on what the renderers produce *)
 Lemma case_and_trailing_wrap lower :
